@@ -1,6 +1,7 @@
 package checks
 
 import (
+	"sync"
 	"fmt"
 	"strings"
 	"testing"
@@ -519,6 +520,95 @@ func runC08(c c08Case, r *rep.Report) (key, msg string, stats map[string]int64) 
 	return
 }
 
+// runC08FlushVsUpgrade: a flush has taken its batch for the pending poll and is held before it
+// hands it over (hook socket.doFlush.batchTaken); a candidate completes the whole upgrade
+// meanwhile.  The batch must reach the client exactly once, and before what is sent afterwards.
+func runC08FlushVsUpgrade(r *rep.Report) (key, msg string, held bool) {
+	rig.Bubble(r.T(), func() {
+		so := &config.ServerOptions{}
+		so.SetTransports(types.NewSet("polling", "websocket"))
+		so.SetPingInterval(20 * time.Second)
+		w := rig.NewWorld(rig.Options{Server: so})
+		defer w.Finish()
+		cl, err := w.Connect(rig.ClientCfg{Rev: 4, Transport: "polling"})
+		rig.Wait()
+		sock := w.Socket(0)
+		if err != nil || sock == nil {
+			key, msg = "c08-handshake-failed", fmt.Sprint(err)
+			return
+		}
+		cl.StartReader() // a poll is pending
+		cand := w.Candidate(sock.Id(), 4)
+		if e := cand.DialCandidateWS(); e != nil {
+			key, msg = "c08-handshake-failed", e.Error()
+			return
+		}
+		time.Sleep(time.Millisecond)
+		cand.WSWriteRaw(false, []byte("2probe"))
+		if mt, d, e := cand.WS.ReadMessage(); e != nil || string(d) != "3probe" {
+			r.Inconclusive(fmt.Sprintf("flush-vs-upgrade: no probe pong (%d %q %v)", mt, d, e))
+			return
+		}
+		w.Gate.Arm("socket.doFlush.batchTaken", 1)
+		go sock.Send(types.NewStringBufferString("m1"), nil, nil)
+		rig.Settle()
+		if len(w.Gate.Parked()) != 1 {
+			r.Inconclusive("flush-vs-upgrade: the flush was not held with its batch")
+			w.Gate.ReleaseAll()
+			return
+		}
+		held = true
+		// the held goroutine owns the session's flush lock: settle on real time
+		cand.WSWriteRaw(false, []byte("5"))
+		for i := 0; i < 20 && !sock.Upgraded(); i++ {
+			rig.Settle()
+		}
+		if !sock.Upgraded() {
+			r.Inconclusive("flush-vs-upgrade: the upgrade did not complete while the flush was held")
+			w.Gate.ReleaseAll()
+			return
+		}
+		w.Gate.ReleaseAll()
+		rig.Settle()
+		sock.Send(types.NewStringBufferString("m2"), nil, nil)
+		// everything that arrives, on either transport
+		var mu sync.Mutex
+		var got []string
+		go func() {
+			for {
+				_, d, e := cand.WS.ReadMessage()
+				if e != nil {
+					return
+				}
+				if len(d) > 0 && d[0] == '4' {
+					mu.Lock()
+					got = append(got, "ws:"+string(d[1:]))
+					mu.Unlock()
+				}
+			}
+		}()
+		time.Sleep(300 * time.Millisecond)
+		rig.Wait()
+		for _, m := range cl.Messages() {
+			got = append([]string{"poll:" + string(m.P.Data)}, got...)
+		}
+		mu.Lock()
+		all := strings.Join(got, ",")
+		mu.Unlock()
+		n1 := strings.Count(all, ":m1")
+		i1, i2 := strings.Index(all, ":m1"), strings.Index(all, ":m2")
+		if n1 != 1 || strings.Count(all, ":m2") != 1 || i1 > i2 {
+			key, msg = "c08-message-lost-across-upgrade", fmt.Sprintf("m1 was taken by a flush for the pending poll, the upgrade to websocket completed before the hand-over, m2 was sent afterwards: the client received [%s] (session %s, transport %s)", all, sock.ReadyState(), sock.Transport().Name())
+			return
+		}
+		if sock.ReadyState() != "open" {
+			key, msg = "c08-failed-upgrade-cost-the-session:", "session closed: " + sock.ReadyState()
+		}
+		cl.Stop()
+	})
+	return
+}
+
 func TestC08(t *testing.T) {
 	r := rep.New(t, "C08")
 	defer r.Flush()
@@ -574,6 +664,18 @@ func TestC08(t *testing.T) {
 	}
 	if r.Lane == 0 {
 		quicLanes(r, "gating")
+	}
+	if r.Lane == 2%r.Lanes {
+		for k := 0; k < r.N(8, 200); k++ {
+			key, msg, held := runC08FlushVsUpgrade(r)
+			r.Case("flush-vs-upgrade", held)
+			if held {
+				r.Obs("gate:flush_held_with_batch_while_the_upgrade_completes", 1)
+			}
+			if key != "" {
+				r.Violation(key, msg, map[string]any{"lane": "flush holds its batch while the upgrade completes (hook socket.doFlush.batchTaken)"})
+			}
+		}
 	}
 	if r.Lane == 1%r.Lanes {
 		// the session closes while a candidate is entertained and the upgrade packet lands during
